@@ -7,8 +7,10 @@ Model     : coq/Copy.v -- recurse_nodes / cgio_copy_node / cgio_compute_data_siz
 Proofs    : coq/CopyProofs.v / Properties_C09.v -- the copy is the identity on EVERY well-formed tree (any depth, fan-out,
             types, sizes) with links kept; with follow_links the result is the expansion of the external links
             (induction on the tree, nested over child lists, fuel only for link following); save-as / convert /
-            rewrite as compositions; cgnsdiff -d is silent iff the trees are equal up to child order; witnesses
-            (..._refuted) of the corners where the code does not preserve the tree.
+            rewrite as compositions; cgnsdiff -d is silent iff the forests are equal up to child order; ..._refuted
+            witnesses of the two known findings; ..._old_refuted witnesses of what the five repairs in /repo changed.
+Corpus    : corpus/C09/*.json run first: the witnesses of the five repaired defects must PASS (a regression is a
+            VIOLATION under the defect's key), the two known findings print KNOWN-FINDING while they still fail.
 Tie C     : seeded worlds (1-3 files, internal / external / nested / chained links, all ten data types, data on both
             sides of 4096 / 100000 bytes, arrays rewritten larger (several ADF chunks), files with deleted nodes) x
             {ADF,HDF5}->{ADF,HDF5} x follow on/off through cgio_copy_file, cg_save_as, cgio_compress_file,
@@ -27,14 +29,6 @@ TOOLS = os.path.join(vlib.REPO, "src", "tools")
 TY = nodedb.TYPES
 
 WORKERS = 4
-K_ROOT = "cgnsdiff-root-label-differs-across-formats"
-K_LOWER = "copy-lowercase-type-data-dropped"
-K_COMPOUND = "copy-compound-type-heap-overflow"
-K_NESTED = "follow-links-internal-link-inside-external-target"
-K_LINKBLIND = "cgnsdiff-link-target-not-compared"
-K_DEEP = "cgnsdiff-deep-path-buffer-overflow"
-K_UAF = "compress-with-5-open-files-use-after-free"
-ROOT_LINE = "/ <> / : labels differ"
 
 
 def hx(b):
@@ -710,8 +704,8 @@ def do_diff(cx, world, idx, scen, outs, impl, thorough):
         dst = outs[i]
         # a copy with expanded links equals its source only for a reader that follows links: cgnsdiff -f
         follow = 1 if (fo == 1 or rng.random() < 0.3) else 0
-        if y != be and fl["chain"]:
-            continue          # link-to-link chains read differently through ADFH (C08), not a matter of the copy
+        if fl["chain"] and "hdf5" in (be, y):
+            continue          # ADFH does not chase a link to a link (C08): cgnsdiff reads such nodes differently, not a matter of the copy
         copy_tree = parse_dump_to_tree(world, fo)
         if copy_tree is None:
             continue
@@ -721,16 +715,10 @@ def do_diff(cx, world, idx, scen, outs, impl, thorough):
         cx.dist["diff_pairs"] += 1
         ck.cov["traces_validated_against_impl"] += 1
         pred = model_diff(files + [(dst, y, copy_tree)], src, dst, follow)
-        rest = [l for l in out if l != ROOT_LINE]
+        rest = out
         if oc != "ok":
             fail(cx, world, idx, {"oracle": "cgnsdiff on (file, copy) runs", "outcome": oc, "stderr": err, "scenario": "%s %s->%s f%d" % (api, be, y, fo)})
             continue
-        if ROOT_LINE in out and y != be:
-            finding_once(ck, K_ROOT, {"what": "cgnsdiff -d on an ADF file and its HDF5 conversion (or vice versa) always prints '/ <> / : labels differ': the roots' "
-                                "format specific labels ('Root Node of ADF File' / 'Root Node of HDF5 File') are compared",
-                                "witness": witness_script("root"), "output": out[:5]})
-        elif ROOT_LINE in out:
-            rest = out
         if rest:
             fail(cx, world, idx, {"oracle": "cgnsdiff -d%s on (file, copy) is silent" % (" -f" if follow else ""), "output": out[:10],
                                   "scenario": "%s %s->%s f%d" % (api, be, y, fo)})
@@ -759,7 +747,7 @@ def do_diff(cx, world, idx, scen, outs, impl, thorough):
             ck.cov["traces_validated_against_impl"] += 1
             independent_differs = sec[1][2] != sec[2][2]
             out, oc, err = run_cgnsdiff(cx, work, src, efile, follow)
-            rest = [l for l in out if not (l == ROOT_LINE and y != be)]
+            rest = out
             info = {"edit": kind, "path": pstr(path).decode("latin1"), "args": args, "follow": follow,
                     "scenario": "%s %s->%s f%d" % (api, be, y, fo), "output": out[:10]}
             if oc != "ok":
@@ -777,155 +765,205 @@ def do_diff(cx, world, idx, scen, outs, impl, thorough):
                 cx.failures.append(dict(info, kind="correspondence", world=idx, first_difference=vlib.first_divergence(pred, out)))
 
 
-# ------------------------------------------------------------------------------------------------ witnesses of the known corners
-def witness_script(which):
-    return {"root": "create /N in an ADF file; cgnsconvert -h it; cgnsdiff -d file.adf file.hdf",
-            "lower": "ADF: create /N1, cgio_set_dimensions(type 'r8', (2)), write 16 bytes; cgio_copy_file into a new ADF file",
-            "compound": "ADF: create /N1, cgio_set_dimensions(type 'I4,R8', (2)), write 24 bytes; cgio_copy_file",
-            "nested": "B: /X, /X/K -> /Y (internal), /Y label YLabel; A: /P/L -> B:/X, /Y label OtherY; cgnsconvert -l A",
-            "linkblind": "two files with /T1 (child kid1), /T2 (child kid2) and /K -> /T1 resp. /K -> /T2; cgnsdiff -d",
-            "deep": "a chain of 40 nodes with 32-character names; copy the file; cgnsdiff -d file copy",
-            "uaf": "5 other cgio files open; cgio_compress_file"}[which]
+# ------------------------------------------------------------------------------------------------ corpus: regression inputs, run first
+NOWORLD = {"be": "adf", "flags": {}, "order": [], "trees": {}}
 
 
-def raw_build(cx, work, lines):
-    out, oc = vlib.run_impl(cx.exe["cgio_h"], "\n".join(lines) + "\n", cwd=work)
-    return out, oc
+def upper_type_field(lines):
+    """dump lines with the type field's first letter upper-cased (HDF5 stores upper-case type names only)"""
+    out = []
+    for l in lines:
+        t = l.split(" ")
+        if t[0] == "N":
+            b = bytes.fromhex(t[3]); t[3] = (b[:1].upper() + b[1:]).hex()
+        out.append(" ".join(t))
+    return out
 
 
-def witnesses(cx):
-    """replay the Coq witnesses (..._refuted) on the library: each is a finding while it still fails"""
+def regression(cx, c, detail):
+    """an input whose defect was repaired fails again: VIOLATION under the defect's key"""
+    finding_once(cx.ck, c["key"], {"regression_of": c["status"], "corpus": c["name"], "what": c["what"], "detail": detail})
+
+
+def corpus_typed_copy(cx, c):
     ck, work = cx.ck, cx.ck.work
-    res = {}
-    # 1. lower-case type: data silently dropped (ADF source)
-    low = ["F %s adf" % hx(b"wl.adf"), "N 1 %s %s %s 2 %s" % (hx(b"N1"), hx(b"L"), b"r8".hex(), bytes(range(1, 17)).hex()),
-           "N 2 %s - %s - -" % (hx(b"pad"), b"MT".hex()), "E", "copy %s %s adf 0" % (hx(b"wl.adf"), hx(b"wl2.adf"))]
-    msec = sections(vlib.run_model("c09", "\n".join(low) + "\n"))
-    p = subprocess.run([cx.exe["lower"], "r8", "wl.adf", "16"], cwd=work, stdout=subprocess.PIPE, stderr=subprocess.PIPE, text=True,
+    ty, nb = c["type"], c["nbytes"]
+    src = "c_%s.adf" % c["name"][:2]
+    p = subprocess.run([cx.exe["lower"], ty, src, str(nb)], cwd=work, stdout=subprocess.PIPE, stderr=subprocess.PIPE, text=True,
                        env=dict(os.environ, **vlib.ASAN_ENV))
-    lines, oc, st = run_ops(cx, ["dump wl.adf 0", "copyfile wl.adf wl2.adf adf 0 r", "dump wl2.adf 0"], work)
+    if not p.stdout.startswith("ok"):
+        raise vlib.Infra("c09_typed %s failed: %s %s" % (ty, p.stdout, p.stderr[-300:]))
+    data = bytes((i + 1) % 256 for i in range(nb))
+    tree = [N(b"N1", b"L", ty, [2], data, kids=[N(b"pad")])]
+    ms = model_file(src, "adf", tree) + ["copy %s %s adf 0" % (hx(src.encode()), hx(b"o1")), "copy %s %s hdf5 0" % (hx(src.encode()), hx(b"o2")),
+                                           "rewrite %s %s adf" % (hx(src.encode()), hx(b"o3"))]
+    msec = sections(vlib.run_model("c09", "\n".join(ms) + "\n"))
+    d_src = sections(run_ops(cx, ["dump %s 0" % src], work)[0])[0]
+    runs = [("copyfile adf", ["copyfile %s c_o1.adf adf 0 r" % src, "dump c_o1.adf 0"], False),
+            ("copyfile hdf5", ["copyfile %s c_o2.hdf hdf5 0 r" % src, "dump c_o2.hdf 0"], True),
+            ("compress", ["compress %s c_o3.adf r 0" % src, "dump c_o3.adf 0"], False)]
+    for k, (what, ops, to_hdf5) in enumerate(runs):
+        lines, oc, st = run_ops(cx, ops, work)
+        sec = sections(lines)
+        ck.cov["traces_validated_against_impl"] += 1
+        mst, mdump = msec[k][1], msec[k][2]
+        if oc != "ok":
+            regression(cx, c, {"run": what, "outcome": oc, "stack": st}); continue
+        st_impl = ok_of(sec[0][1])
+        if c["expect"] == "copied":
+            want = upper_type_field(d_src[2]) if to_hdf5 else d_src[2]
+            if st_impl != "ok" or sec[1][2] != want or "nodata" in " ".join(sec[1][2]):
+                regression(cx, c, {"run": what, "status": sec[0][1], "source_walk": d_src[2], "result_walk": sec[1][2]}); continue
+            if mst != "ok" or mdump != sec[1][2]:
+                cx.n_div += 1; cx.failures.append({"kind": "correspondence", "scenario": "corpus %s %s" % (c["name"], what), "model": [mst, mdump], "impl": sec[1][2]})
+        else:
+            if st_impl != "err":
+                regression(cx, c, {"run": what, "status": sec[0][1], "note": "the copy of a compound-typed node must report an error"}); continue
+            if mst != "err":
+                cx.n_div += 1; cx.failures.append({"kind": "correspondence", "scenario": "corpus %s %s" % (c["name"], what), "model": mst, "impl": sec[0][1]})
+
+
+def corpus_diff_cross_format(cx, c):
+    ck, work = cx.ck, cx.ck.work
+    tree = [N(b"Base", b"CGNSBase_x", "I4", [2], struct.pack("<ii", 3, 3), kids=[N(b"Zone 1", b"Zone_x", "I8", [3, 1], bytes(24)), N(b"note", b"Descriptor_x", "C1", [5], b"hello")]),
+            N(b"r", b"", "R8", [2, 2], struct.pack("<4d", 1.0, -0.0, 2.5, 1e300))]
+    for be, ext, y, yext in (("adf", "adf", "hdf5", "hdf"), ("hdf5", "hdf", "adf", "adf")):
+        f, g = "c_x." + ext, "c_x_conv." + yext
+        build_files(cx.exe["cgio_h"], work, {"be": be, "order": [f], "trees": {f: tree}}, ck.rng)
+        o, toc, err = run_tool(cx, "cgnsconvert", (["-a"] if y == "adf" else ["-h"]) + [f, g], work)
+        out, oc, err2 = run_cgnsdiff(cx, work, f, g, 0)
+        ck.cov["traces_validated_against_impl"] += 1
+        if toc != "ok" or oc != "ok" or out:
+            regression(cx, c, {"direction": be + "->" + y, "convert": toc, "cgnsdiff": oc, "output": out[:5], "stderr": (err + err2)[-300:]}); continue
+        pred = model_diff([(f, be, tree), (g, y, tree)], f, g, 0)
+        if pred != out:
+            cx.n_div += 1; cx.failures.append({"kind": "correspondence", "scenario": "corpus %s" % c["name"], "model": pred, "impl": out})
+
+
+def corpus_diff_deep(cx, c):
+    ck, work = cx.ck, cx.ck.work
+    chain, cur, path = [], None, ()
+    cur = chain
+    for i in range(c["depth"]):
+        nm = ("n%02d" % i).encode() + b"x" * (c["namelen"] - 3)
+        n = N(nm); cur.append(n); cur = n["kids"]; path += (nm,)
+    f = "c_deep.adf"
+    build_files(cx.exe["cgio_h"], work, {"be": "adf", "order": [f], "trees": {f: chain}}, ck.rng)
+    lines, oc, st = run_ops(cx, ["copyfile %s c_deep2.adf adf 0 r" % f, "dump %s 0" % f, "dump c_deep2.adf 0"], work)
     sec = sections(lines)
-    res["lower"] = {"typed_write": p.stdout.strip(), "outcome": oc, "source": sec[0][2] if sec else None, "copy_status": sec[1][1] if len(sec) > 1 else None,
-                    "copy": sec[2][2] if len(sec) > 2 else None, "model": msec[0][2] if msec else None}
-    if oc == "ok" and len(sec) == 3 and sec[1][1] == "ok" and sec[0][2] != sec[2][2]:
-        finding_once(ck, K_LOWER, {"what": "cgio_compute_data_size switches on the first character in upper case only: an ADF node whose type string "
-                             "is lower case ('r8'; ADF stores the string as given and reads/writes such nodes) is given size 0 and "
-                             "cgio_copy_file / cg_save_as / cgio_compress_file return success without its data",
-                             "witness": witness_script("lower"), "source_walk": sec[0][2], "copy_walk": sec[2][2],
-                             "model_agrees": bool(msec) and msec[0][2] == sec[2][2]})
-        if not (msec and msec[0][2] == sec[2][2]):
-            cx.n_div += 1; cx.failures.append({"kind": "correspondence", "scenario": "witness lower-case type", "model": msec[0][2] if msec else None, "impl": sec[2][2]})
-    elif oc == "ok" and len(sec) == 3 and sec[0][2] == sec[2][2]:
-        cx.n_div += 1; cx.failures.append({"kind": "correspondence", "scenario": "witness lower-case type no longer reproduces (C09_lowercase_type_data_dropped_refuted describes the code no more)"})
-    else:
-        fail(cx, {"be": "adf", "flags": {}, "order": [], "trees": {}}, -1, {"oracle": "witness lower-case type", "detail": res["lower"]})
-    # 2. compound type: heap overflow
-    p = subprocess.run([cx.exe["lower"], "I4,R8", "wc.adf", "24"], cwd=work, stdout=subprocess.PIPE, stderr=subprocess.PIPE, text=True,
-                       env=dict(os.environ, **vlib.ASAN_ENV))
-    lines, oc, st = run_ops(cx, ["copyfile wc.adf wc2.adf adf 0 r"], work)
-    res["compound"] = {"typed_write": p.stdout.strip(), "outcome": oc, "stack": st}
-    if oc.startswith("asan:heap-buffer-overflow") and "cgio_copy_node" in st:
-        finding_once(ck, K_COMPOUND, {"what": "cgio_copy_node sizes its buffer with cgio_compute_data_size, which looks at the first two characters of the type "
-                                "only: an ADF node of a compound type ('I4,R8': 12 bytes per element, sized as 4) makes ADF_Read_All_Data "
-                                "write past the buffer", "witness": witness_script("compound"), "outcome": oc, "stack": st})
-    elif oc == "ok":
-        cx.n_div += 1; cx.failures.append({"kind": "correspondence", "scenario": "witness compound type no longer overflows (C09_compound_type_overflow_refuted describes the code no more)", "lines": lines})
-    else:
-        fail(cx, {"be": "adf", "flags": {}, "order": [], "trees": {}}, -1, {"oracle": "witness compound type", "detail": res["compound"]})
-    # 3. internal link inside an externally linked subtree, follow_links = 1
+    if oc != "ok" or len(sec) != 3 or sec[0][1] != "ok" or sec[1][2] != sec[2][2]:
+        fail(cx, NOWORLD, -1, {"oracle": "copy of a %d-deep chain" % c["depth"], "outcome": oc, "sections": [x[1] for x in sec]}); return
+    out, doc, err = run_cgnsdiff(cx, work, f, "c_deep2.adf", 0)
+    ck.cov["traces_validated_against_impl"] += 1
+    if doc != "ok" or out:
+        regression(cx, c, {"pair": "(file, copy)", "outcome": doc, "output": out[:3], "stderr": err[-300:]}); return
+    pred = model_diff([(f, "adf", chain), ("c_deep2.adf", "adf", chain)], f, "c_deep2.adf", 0)
+    if pred != out:
+        cx.n_div += 1; cx.failures.append({"kind": "correspondence", "scenario": "corpus %s" % c["name"], "model": pred[-3:], "impl": out})
+    edited = _copy.deepcopy(chain)
+    node_at(edited, path)["label"] = b"changed"
+    lines, oc, st = run_ops(cx, ["edit c_deep2.adf relabel %s %s" % (hx(pstr(path)), hx(b"changed"))], work)
+    out, doc, err = run_cgnsdiff(cx, work, f, "c_deep2.adf", 0)
+    want = "%s <> %s : labels differ" % (pstr(path).decode(), pstr(path).decode())
+    if oc != "ok" or doc != "ok" or out != [want]:
+        regression(cx, c, {"pair": "(file, copy with the deepest node relabelled)", "outcome": [oc, doc], "output": [x[-80:] for x in out[:3]], "stderr": err[-300:]}); return
+    pred = model_diff([(f, "adf", chain), ("c_deep2.adf", "adf", edited)], f, "c_deep2.adf", 0)
+    if pred != out:
+        cx.n_div += 1; cx.failures.append({"kind": "correspondence", "scenario": "corpus %s (edit)" % c["name"], "model": [x[-60:] for x in pred], "impl": [x[-60:] for x in out]})
+
+
+def corpus_compress_open(cx, c):
+    ck, work = cx.ck, cx.ck.work
+    f = "c_uaf.adf"
+    tree = [N(b"A", b"LA", "I4", [3], b"\1\0\0\0\2\0\0\0\3\0\0\0", kids=[N(b"B", b"LB", "C1", [2], b"ok")])]
+    for k in c["extra"]:
+        build_files(cx.exe["cgio_h"], work, {"be": "adf", "order": [f], "trees": {f: tree}}, ck.rng)
+        lines, oc, st = run_ops(cx, ["dump %s 0" % f, "compress %s %s r %d" % (f, f, k), "dump %s 0" % f], work)
+        sec = sections(lines)
+        ck.cov["traces_validated_against_impl"] += 1
+        if oc != "ok" or len(sec) != 3 or sec[1][1] != "ok" or sec[0][2] != sec[2][2]:
+            regression(cx, c, {"other_files_open": k, "outcome": oc, "stack": st, "sections": [x[1] for x in sec]})
+
+
+def corpus_nested_link(cx, c):
+    ck, work = cx.ck, cx.ck.work
     for be, ext in (("adf", "adf"), ("hdf5", "hdf")):
         B = [N(b"X", b"LX", kids=[L(b"K", b"", b"/Y")]), N(b"Y", b"YLabel", "I4", [2], struct.pack("<ii", 1, 2))]
-        A = [N(b"P", kids=[L(b"L", ("wnB.%s" % ext).encode(), b"/X")]), N(b"Y", b"OtherY")]
-        w = {"be": be, "order": ["wnB." + ext, "wnA." + ext], "trees": {"wnB." + ext: B, "wnA." + ext: A}, "src": "wnA." + ext, "flags": {}}
-        build_files(cx.exe["cgio_h"], work, w, cx.ck.rng)
-        o, toc, err = run_tool(cx, "cgnsconvert", (["-a"] if be == "adf" else ["-h"]) + ["-f", "-l", "wnA." + ext, "wnO." + ext], work)
-        lines, oc, st = run_ops(cx, ["dump wnA.%s 2" % ext, "dump wnO.%s 2" % ext, "dump wnO.%s 0" % ext], work)
+        A = [N(b"P", kids=[L(b"L", ("c_nB.%s" % ext).encode(), b"/X")]), N(b"Y", b"OtherY")]
+        w = {"be": be, "order": ["c_nB." + ext, "c_nA." + ext], "trees": {"c_nB." + ext: B, "c_nA." + ext: A}, "src": "c_nA." + ext, "flags": {}}
+        build_files(cx.exe["cgio_h"], work, w, ck.rng)
+        o, toc, err = run_tool(cx, "cgnsconvert", (["-a"] if be == "adf" else ["-h"]) + ["-f", "-l", "c_nA." + ext, "c_nO." + ext], work)
+        lines, oc, st = run_ops(cx, ["dump c_nA.%s 2" % ext, "dump c_nO.%s 2" % ext, "dump c_nO.%s 0" % ext], work)
         sec = sections(lines)
-        ms = model_file("wnB." + ext, be, B) + model_file("wnA." + ext, be, A) + ["copy %s %s %s 1" % (hx(("wnA." + ext).encode()), hx(("wnO." + ext).encode()), be)]
+        ms = model_file("c_nB." + ext, be, B) + model_file("c_nA." + ext, be, A) + ["copy %s %s %s 1" % (hx(("c_nA." + ext).encode()), hx(("c_nO." + ext).encode()), be)]
         msec = sections(vlib.run_model("c09", "\n".join(ms) + "\n"))
+        ck.cov["traces_validated_against_impl"] += 1
         if toc == "ok" and oc == "ok" and len(sec) == 3 and sec[0][2] != sec[1][2]:
-            finding_once(ck, K_NESTED, {"what": "with follow_links an external link is replaced by a copy of its target, but an INTERNAL link found inside that "
-                                  "target is copied verbatim: in the new file its path names a node of the new file (another node, or none) "
-                                  "instead of the node of the linked file it meant", "witness": witness_script("nested"), "backend": be,
-                                  "resolved_source": sec[0][2], "resolved_copy": sec[1][2]})
+            finding_once(ck, c["key"], {"what": c["what"], "backend": be, "resolved_source": sec[0][2], "resolved_copy": sec[1][2]})
             if msec[0][2] != sec[2][2]:
-                cx.n_div += 1; cx.failures.append({"kind": "correspondence", "scenario": "witness nested internal link", "model": msec[0][2], "impl": sec[2][2]})
+                cx.n_div += 1; cx.failures.append({"kind": "correspondence", "scenario": "corpus nested internal link", "model": msec[0][2], "impl": sec[2][2]})
         elif toc == "ok" and oc == "ok" and len(sec) == 3:
-            cx.n_div += 1; cx.failures.append({"kind": "correspondence", "scenario": "witness nested internal link no longer reproduces (C09_follow_nested_internal_link_refuted)", "backend": be})
+            cx.n_div += 1; cx.failures.append({"kind": "correspondence", "scenario": "corpus nested internal link no longer reproduces (C09_follow_nested_internal_link_refuted describes the code no more)", "backend": be})
         else:
-            fail(cx, w, -1, {"oracle": "witness nested internal link", "outcome": [toc, oc], "stderr": err})
-    # 4. cgnsdiff does not compare link targets
+            fail(cx, w, -1, {"oracle": "corpus nested internal link", "outcome": [toc, oc], "stderr": err})
+
+
+def corpus_link_target(cx, c):
+    ck, work = cx.ck, cx.ck.work
     for be, ext in (("adf", "adf"), ("hdf5", "hdf")):
         trees = {}
         for v in (1, 2):
             t = [N(b"T1", kids=[N(b"kid1")]), N(b"T2", kids=[N(b"kid2")]), L(b"K", b"", b"/T%d" % v)]
-            f = "wk%d.%s" % (v, ext); trees[f] = t
-            build_files(cx.exe["cgio_h"], work, {"be": be, "order": [f], "trees": {f: t}}, cx.ck.rng)
-        f1, f2 = "wk1." + ext, "wk2." + ext
+            f = "c_k%d.%s" % (v, ext); trees[f] = t
+            build_files(cx.exe["cgio_h"], work, {"be": be, "order": [f], "trees": {f: t}}, ck.rng)
+        f1, f2 = "c_k1." + ext, "c_k2." + ext
         out, oc, err = run_cgnsdiff(cx, work, f1, f2, 0)
         lines, doc, st = run_ops(cx, ["dump %s 0" % f1, "dump %s 0" % f2], work)
         sec = sections(lines)
         pred = model_diff([(f1, be, trees[f1]), (f2, be, trees[f2])], f1, f2, 0)
+        ck.cov["traces_validated_against_impl"] += 1
         if oc == "ok" and doc == "ok" and sec[0][2] != sec[1][2] and not out:
-            finding_once(ck, K_LINKBLIND, {"what": "without -f cgnsdiff compares a link node by the label / type / dimensions / data of its target and never the "
-                                     "link's file and path: retargeting a link to a node with the same label, type and data is not reported",
-                                     "witness": witness_script("linkblind"), "backend": be, "walk1": sec[0][2], "walk2": sec[1][2]})
+            finding_once(ck, c["key"], {"what": c["what"], "backend": be, "walk1": sec[0][2], "walk2": sec[1][2]})
             if pred != out:
-                cx.n_div += 1; cx.failures.append({"kind": "correspondence", "scenario": "witness link target", "model": pred, "impl": out})
+                cx.n_div += 1; cx.failures.append({"kind": "correspondence", "scenario": "corpus link target", "model": pred, "impl": out})
         elif oc == "ok" and out:
-            cx.n_div += 1; cx.failures.append({"kind": "correspondence", "scenario": "witness link target is reported now (C09_diff_link_target_blind_refuted)", "output": out})
+            cx.n_div += 1; cx.failures.append({"kind": "correspondence", "scenario": "corpus link target is reported now (C09_diff_link_target_blind_refuted describes the code no more)", "output": out})
         else:
-            fail(cx, {"be": be, "flags": {}, "order": [], "trees": {}}, -1, {"oracle": "witness link target", "outcome": [oc, doc], "stderr": err})
-    # 5. cgnsdiff path buffers
-    chain = []
-    cur = chain
-    for i in range(40):
-        n = N(("n%02d" % i).encode() + b"x" * 29)
-        cur.append(n); cur = n["kids"]
-    for be, ext in (("adf", "adf"),):
-        f = "wd." + ext
-        build_files(cx.exe["cgio_h"], work, {"be": be, "order": [f], "trees": {f: chain}}, cx.ck.rng)
-        lines, oc, st = run_ops(cx, ["copyfile %s wd2.%s %s 0 r" % (f, ext, be), "dump %s 0" % f, "dump wd2.%s 0" % ext], work)
-        sec = sections(lines)
-        if oc != "ok" or sec[0][1] != "ok" or sec[1][2] != sec[2][2]:
-            fail(cx, {"be": be, "flags": {}, "order": [], "trees": {}}, -1, {"oracle": "copy of a 40-deep chain", "outcome": oc, "sections": [s[1] for s in sec]})
-        out, doc, err = run_cgnsdiff(cx, work, f, "wd2." + ext, 0)
-        pred = model_diff([(f, be, chain), ("wd2." + ext, be, chain)], f, "wd2." + ext, 0)
-        if doc.startswith("asan:stack-buffer-overflow"):
-            finding_once(ck, K_DEEP, {"what": "cgnsdiff builds node paths with sprintf into char path1[1024], path2[1024]: a tree deeper than 31 levels of "
-                                "32-character names (legal for both back ends; copied correctly) overflows the stack buffers",
-                                "witness": witness_script("deep"), "outcome": doc, "model_predicts": pred[-1:]})
-            if pred[-1:] != ["!path_overflow"]:
-                cx.n_div += 1; cx.failures.append({"kind": "correspondence", "scenario": "witness deep path", "model": pred[-3:]})
-        elif doc == "ok" and not out:
-            cx.n_div += 1; cx.failures.append({"kind": "correspondence", "scenario": "witness deep path no longer overflows (C09_diff_deep_path_overflow_refuted)"})
-        else:
-            fail(cx, {"be": be, "flags": {}, "order": [], "trees": {}}, -1, {"oracle": "witness deep path", "outcome": doc, "output": out[:5], "stderr": err})
-    # 6. cgio_compress_file while five other files are open
-    f = "wu.adf"
-    build_files(cx.exe["cgio_h"], work, {"be": "adf", "order": [f], "trees": {f: [N(b"A", b"LA", "I4", [3], b"\1\0\0\0\2\0\0\0\3\0\0\0")]}}, cx.ck.rng)
-    lines4, oc4, st4 = run_ops(cx, ["dump %s 0" % f, "compress %s %s r 3" % (f, f), "dump %s 0" % f], work)
-    sec = sections(lines4)
-    if oc4 != "ok" or len(sec) != 3 or sec[1][1] != "ok" or sec[0][2] != sec[2][2]:
-        fail(cx, {"be": "adf", "flags": {}, "order": [], "trees": {}}, -1, {"oracle": "compress with 3 other files open", "outcome": oc4, "sections": [s[1] for s in sec]})
-    lines5, oc5, st5 = run_ops(cx, ["compress %s %s r 5" % (f, f)], work)
-    if oc5.startswith("asan:heap-use-after-free") and "rewrite_file" in st5:
-        finding_once(ck, K_UAF, {"what": "rewrite_file keeps `input` (a pointer into iolist) across cgio_open_file of the temporary file, which reallocs iolist "
-                           "when all slots are in use (5 or more cgio files open): input->rootid is read from freed memory",
-                           "witness": witness_script("uaf"), "outcome": oc5, "stack": st5})
-    elif oc5 != "ok":
-        fail(cx, {"be": "adf", "flags": {}, "order": [], "trees": {}}, -1, {"oracle": "compress with 5 other files open", "outcome": oc5, "stack": st5})
-    # 7. outside the default options: -t<tol> compares fabs(a-b) > tol, which is false for a NaN (documented limit, not a finding);
-    #    with the default tolerance the same pair must be reported
-    for v, bits in (("wt1.adf", struct.pack("<d", 2.0)), ("wt2.adf", struct.pack("<Q", 0x7ff8000000000000))):
-        build_files(cx.exe["cgio_h"], work, {"be": "adf", "order": [v], "trees": {v: [N(b"a", b"", "R8", [1], bits)]}}, cx.ck.rng)
-    out0, oc0, err0 = run_tool(cx, "cgnsdiff", ["-d", "wt1.adf", "wt2.adf"], work)
-    outt, oct, errt = run_tool(cx, "cgnsdiff", ["-d", "-t1e-6", "wt1.adf", "wt2.adf"], work)
-    res["tolerance_nan"] = {"default": out0, "with_-t1e-6": outt}
+            fail(cx, NOWORLD, -1, {"oracle": "corpus link target", "outcome": [oc, doc], "stderr": err})
+
+
+def corpus_tol_nan(cx, c):
+    ck, work = cx.ck, cx.ck.work
+    for v, bits in (("c_t1.adf", struct.pack("<d", 2.0)), ("c_t2.adf", struct.pack("<Q", 0x7ff8000000000000))):
+        build_files(cx.exe["cgio_h"], work, {"be": "adf", "order": [v], "trees": {v: [N(b"a", b"", "R8", [1], bits)]}}, ck.rng)
+    out0, oc0, err0 = run_tool(cx, "cgnsdiff", ["-d", "c_t1.adf", "c_t2.adf"], work)
+    outt, oct, errt = run_tool(cx, "cgnsdiff", ["-d", "-t1e-6", "c_t1.adf", "c_t2.adf"], work)
     if oc0 != "ok" or out0 != ["/a <> /a : data values differ"]:
-        fail(cx, {"be": "adf", "flags": {}, "order": [], "trees": {}}, -1, {"oracle": "cgnsdiff -d reports 2.0 against NaN", "output": out0, "outcome": oc0})
+        fail(cx, NOWORLD, -1, {"oracle": "cgnsdiff -d reports 2.0 against NaN", "output": out0, "outcome": oc0})
     if oct == "ok" and outt:
         cx.n_div += 1; cx.failures.append({"kind": "correspondence", "scenario": "cgnsdiff -t reports a NaN now (C09_diff_tol_nan_refuted describes the code no more)", "output": outt})
+    return {"default": out0, "with_-t1e-6": outt}
+
+
+CORPUS_KINDS = {"typed_copy": corpus_typed_copy, "diff_cross_format": corpus_diff_cross_format, "diff_deep": corpus_diff_deep,
+                "compress_open": corpus_compress_open, "nested_link": corpus_nested_link, "link_target": corpus_link_target,
+                "tol_nan": corpus_tol_nan}
+
+
+def run_corpus(cx):
+    """corpus/C09/*.json: the witnesses of the repaired defects (must pass; a regression is a VIOLATION under the
+    defect's key), of the two known findings (KNOWN-FINDING while they still fail) and of the -t limit"""
+    d = os.path.join(vlib.ROOT, "corpus", "C09")
+    res = {}
+    for fn in sorted(os.listdir(d)):
+        if not fn.endswith(".json"):
+            continue
+        c = json.load(open(os.path.join(d, fn)))
+        before = (len(cx.ck.violations), len(cx.ck.known_hits), len(cx.failures))
+        r = CORPUS_KINDS[c["kind"]](cx, c)
+        after = (len(cx.ck.violations), len(cx.ck.known_hits), len(cx.failures))
+        res[c["name"]] = {"status": c["status"], "result": "as recorded" if before == after or (c["status"] == "known finding" and after[0] == before[0] and after[2] == before[2])
+                          else "CHANGED", "detail": r}
     return res
 
 
@@ -981,11 +1019,11 @@ def run(ck, pid="C09"):
         "Copy.v as the meaning of the cgio queries on link ids (answers for the target) and of qsort / bisection in cgnsdiff (sorted scan)"]
     ck.assumptions = [
         "the logical tree of a file is the forest below its root: the root's own label / type / data are format specific and are not copied (depth 0)",
-        "sources hold the documented data types (MT, B1 C1 I4 I8 U4 U8 R4 R8 X4 X8) with every array written; other ADF type strings are the _refuted witnesses",
+        "sources hold the documented data types (MT, B1 C1 I4 I8 U4 U8 R4 R8 X4 X8; for an ADF destination also with a lower-case first letter) with every array written; a compound ADF type makes the copy report an error (C09_compound_type_reports_error)",
         "a copy that returns an error (HDF5 cannot hold a typed node without dimensions; unresolvable link with follow_links) is outside the property",
         "cgnsdiff is judged on pairs whose links resolve in both files (it exits with an error otherwise); -c / -i / -t are outside the default options",
         "ADF free-space / chunk tables and all of libhdf5 are tied by this differential run only",
-        "axioms: none for 16 theorems; C09_diff_tol_nan_refuted (outside the default options) uses Flocq binary64 and inherits "
+        "axioms: none for 21 theorems; C09_diff_tol_nan_refuted (outside the default options) uses Flocq binary64 and inherits "
         "ClassicalDedekindReals.sig_forall_dec, ClassicalDedekindReals.sig_not_dec, "
         "FunctionalExtensionality.functional_extensionality_dep, Classical_Prop.classic"]
     ck.cov["rule"] = ("seeded worlds of 1-3 files in one back end (random trees of 6-110 nodes, deep chains, wide parents, all ten types, payloads around "
@@ -994,8 +1032,7 @@ def run(ck, pid="C09"):
                       "cgnsconvert, cgio_compress_file (r and m), cgnscompress (in place and to a new file), compress-on-close; then cgnsdiff -d [-f] on "
                       "(file, copy) and on (file, copy with one elementary edit). non-trivial = the world has external and internal links or a payload "
                       "above 4096 bytes; distinct by SHA1 of the world")
-    wit = witnesses(cx)
-    ck.extra["witness_replays"] = {k: (v if len(json.dumps(v)) < 1500 else "...") for k, v in wit.items()}
+    ck.extra["corpus"] = run_corpus(cx)          # regression inputs first
     n = 40 if thorough else 10
     ver = dotvers()
     for i in range(n):
@@ -1015,7 +1052,7 @@ def run(ck, pid="C09"):
     if not props and (corr or broken):
         ck.violation({"broken_obligations": broken, "correspondence_divergences": corr[:5],
                       "note": "the model (or a theorem about it) no longer describes the code; no input on which the property itself fails was found "
-                              "among %d scenarios and the witness replays" % ck.cov["traces_validated_against_impl"]}, nofail=True)
+                              "among %d scenarios and the corpus" % ck.cov["traces_validated_against_impl"]}, nofail=True)
     ck.extra["input_distribution"] = cx.dist
     ck.extra["correspondence_divergences"] = len(corr)
 
@@ -1026,9 +1063,9 @@ def replay(ck, path):
     build_all(cx)
     if r.get("finding_key") or not r.get("model_world_full"):
         before = len(ck.violations) + len(ck.known_hits)
-        witnesses(cx)
+        run_corpus(cx)
         bad = len(ck.violations) + len(ck.known_hits) - before + len([f for f in cx.failures if f["kind"] == "property"])
-        print("replay: witnesses %s" % ("still fail" if bad else "hold"))
+        print("replay: corpus %s" % ("has failing inputs (known findings included)" if bad else "passes"))
         return 1 if bad else 0
     w = world_from_model(r["model_world_full"], r["backend"], r["src"])
     if r.get("mll"):
